@@ -40,12 +40,19 @@ from gens import limitfacts
 from props import c10
 
 ID = 'C09'
-LEAN_MODULES = ['Yaql.Props.C09', 'Yaql.Props.C09Ctx', 'Yaql.Props.C09Eval', 'Yaql.Props.C09Gen']
+LEAN_MODULES = ['Yaql.Props.C09', 'Yaql.Props.C09Ctx', 'Yaql.Props.C09Eval', 'Yaql.Props.C09Gen', 'Yaql.Props.EvalStore',
+                'Yaql.Props.C09Store', 'Yaql.Props.EvalStoreRefine', 'Yaql.Props.EvalStoreRefineM',
+                'Yaql.Props.EvalStoreRefineE']
 REQUIRED_THEOREMS = ['Yaql.Props.C09.' + n for n in (
     'convert_input_fresh', 'convert_output_fresh', 'convert_output_no_alias_with_conversion_off',
     'output_conversion_off_aliases', 'convInI_erase', 'convOutI_erase',
     'frame', 'discipline_fresh', 'context_frame', 'only_dollar', 'only_dollar_reads', 'dollar_bound',
-    'reeval', 'reeval_pool', 'context_clause_partial', 'eval_C09_full', 'eval_reeval_pool')] + ['Yaql.Props.C09Gen.no_param_mutation', 'Yaql.Props.C09Gen.table_nonvacuous']
+    'reeval', 'reeval_pool', 'context_clause_partial', 'eval_C09_full', 'eval_reeval_pool',
+    'stmtOfEvalS_local', 'stmtOfEvalS_disciplined', 'evalS_C09_full', 'evalS_context_frame', 'evalS_only_dollar',
+    'evalS_only_dollar_reads', 'evalS_reeval_pool')] + [
+        'Yaql.Props.C09Gen.no_param_mutation', 'Yaql.Props.C09Gen.table_nonvacuous'] + ['Yaql.Props.EvalStore.' + n for n in (
+            'log_disciplined', 'writes_fresh', 'store_prefix_unchanged', 'store_extends', 'statement_only_dollar',
+            'sim_callMethod', 'sim_callFn', 'sim_eval', 'refines_eval', 'refines_eval_value', 'refines_run')]
 TRUSTED = ['harness/gens/mutfacts.py: the AST scan that classifies in-place updates / attribute stores / global writes '
            'per payload parameter (labels, aliasing rules, copy constructors); cross-checked by the dynamic sweep',
            'the snapshot / identity walkers of harness/props/c09.py',
@@ -53,9 +60,12 @@ TRUSTED = ['harness/gens/mutfacts.py: the AST scan that classifies in-place upda
 ASSUMPTIONS = ['aliasing is modelled with allocation identities carried by container nodes, not with a heap: the '
                'converters are pure functions of their argument in the model (absence of writes in the real code is '
                'C09Gen.no_param_mutation + the dynamic snapshot oracle)',
-               'the evaluator is abstracted to its sequence of context-API calls; Disciplined / Local are hypotheses '
-               'of only_dollar / reeval_pool; for the C04 evaluator model (immutable frame chains) they are proved '
-               '(eval_C09_full) under C04\'s representation argument; the real evaluator\'s traces are checked dynamically',
+               'the store-level theorems (only_dollar, reeval_pool) take the evaluator as its sequence of context-API calls '
+               'with the hypotheses Disciplined / Local; these are proved for the store-passing evaluator model '
+               'Model/EvalStore.lean (mutable context cells; evalS_C09_full, from EvalStore.writes_fresh), which refines '
+               'the C04 reference interpreter (refines_eval) and whose allocation / write log is compared with the '
+               'instrumented real context classes on generated programs (props/evalstore.py); generators are run eagerly '
+               'in that model (the real evaluator performs a prefix of the model\'s context tree when a consumer stops early)',
                'host documents are lists / dicts / sets (tuples, scalars) - the property\'s quantifier; generators, '
                'frozensets and dict views are wrapped lazily by convert_input_data (modelled, '
                'convert_input_lazy_holds_source) and are outside the no-alias claim',
@@ -1444,6 +1454,13 @@ def run_yaqlized(world, res, hist):
 
 # ====================================================================================== run
 
+def run_evalstore(env, res, hist):
+    """the write log of generated programs of the C04 fragment on instrumented context classes against the
+    store-passing evaluator model (props/evalstore.py; Lean: Props/EvalStore.lean, Props/C09Store.lean)"""
+    from props import evalstore
+    evalstore.run(env, res, hist, ID)
+
+
 def replay_case(world, drv, res, case, hist):
     part = case.get('part')
     if part == 'sweep':
@@ -1455,6 +1472,10 @@ def replay_case(world, drv, res, case, hist):
             res.fail('oracle', key, '%s (expression %s, yaql.convertInputData=%s, data %s)' % (
                 what, case['text'], case['mode'], case['data']), case)
         res.case(('replay', case['text']))
+        return True
+    if part == 'evalstore':
+        from props import evalstore
+        evalstore.run(dict(driver=drv, tier=case.get('tier', 'quick'), seed=case.get('seed', 0), replay_case=case), res, hist, ID)
         return True
     if part in ('pool', 'ctx', 'conv', 'yaqlized', 'yaqleval') and 'seed' in case:
         rng = common.make_rng(case['seed'], ID + part)
@@ -1554,7 +1575,8 @@ def run(env, res):
                      ('ctx', lambda r: run_ctx(world, drv, res, r, tier, hist)),
                      ('conv', lambda r: run_conv(world, drv, res, r, tier, hist)),
                      ('yaqleval', lambda r: run_yaqleval(world, res, r, tier, hist)),
-                     ('yaqlized', lambda r: run_yaqlized(world, res, hist))):
+                     ('yaqlized', lambda r: run_yaqlized(world, res, hist)),
+                     ('evalstore', lambda r: run_evalstore(env, res, hist))):
         if res.failures:
             break
         t1 = time.time()
@@ -1584,17 +1606,27 @@ LEVEL_TEXT = ('Lean 4 theorems over (1) a model of utils.convert_input_data / co
               'changes the supplied context (plain, multi or linked, any chain) by the `$` binding only - cell level and '
               'through get_data / contains / collect_functions / get_functions from any context of the host forest; pools '
               'of statements evaluated in any order against one shared context each return what they return alone on the '
-              'initial store; (3) a table regenerated from the live registry (284 functions x parameters, decide +kernel): '
+              'initial store - with the hypotheses on the evaluator discharged for a store-passing evaluator of the core '
+              'fragment over mutable context cells (every write of an evaluation targets the context allocated last, hence '
+              'a context the evaluation itself created: log_disciplined, writes_fresh, store_prefix_unchanged, '
+              'statement_only_dollar; evalS_only_dollar, evalS_reeval_pool without hypotheses) that refines the C04 reference '
+              'interpreter construct by construct (refines_eval, refines_run); (3) a table regenerated from the live registry (284 functions x parameters, decide +kernel): '
               'no payload updates a parameter, an alias or anything reachable inside it in place, stores attributes on '
               'objects it did not create, writes module state or writes to a context other than its own child.  Tie: the '
               'identity model is compared with `is`-sharing of the real converters and of `$`-path expressions in all '
               'option combinations; real evaluator traces are replayed on the context model; the oracle (deep snapshots with '
               'identity maps of data, every reachable context and the parsed statement; alias scan and scrambling of the '
               'result; reuse against a fresh parse) runs around every evaluation of a sweep over every registered function '
-              'x every position admitting a raw list / dict / set, nested shapes, both input-conversion modes.')
+              'x every position admitting a raw list / dict / set, nested shapes, both input-conversion modes; the '
+              'context classes are instrumented (creation serials, every __setitem__ / __delitem__ / register_function / '
+              'delete_function) under generated programs of the core fragment: no write to a context that existed before, '
+              'none to a context that already has a child, and the tree of contexts created / names written is the model\'s.')
 LEVEL_NOTE = ('partial: aliasing is modelled with allocation identities, not a heap; the evaluator\'s discipline and locality '
-              'are hypotheses of the store-level theorems, discharged for the C04 evaluator model (Props/C09Eval.lean, whose '
-              'contexts are immutable frame chains) and checked on traces of the real evaluator; the AST '
+              'are hypotheses of the store-level theorems, discharged for the store-passing evaluator model of the core '
+              'fragment (Model/EvalStore.lean: mutable context cells, a child context per function call, lambdas capturing '
+              'context IDs; Props/C09Store.lean), which provably refines the C04 reference interpreter '
+              '(EvalStore.refines_eval, all constructs) and is tied to the real context classes by the write-log run; '
+              'library functions outside that fragment are covered by the generated table and the dynamic sweep; the AST '
               'scan of harness/gens/mutfacts.py is trusted and does not follow values stored into yaql objects by '
               'constructors (OrderingIterable) - those are covered by the dynamic sweep only')
 TECHNIQUE = ('Lean 4 proof (mutual structural induction over Python objects with identities; induction over step sequences '
